@@ -126,6 +126,22 @@ def run(ctx):
     if qslst.psnr(yu, xu) == float('inf'): viol('C18:psnr:unequal:underflow', 'psnr is inf for unequal arrays (squared difference underflows)', {'x': xu.tolist(), 'y': yu.tolist()})
     if qslst.relative_error(yu, xu) == 0.0: viol('C18:relerr:unequal:underflow', 'relative_error is 0 for unequal arrays (squared difference underflows)', {'x': xu.tolist(), 'y': yu.tolist()})
     ctx.count(('metric-underflow',), True)
+    # noise injection, exactly: the standard deviation handed to the generator gives E||noise||_F^2 = ||Q||_F^2 / 10^(snr/10) for EVERY image size
+    class _RecRng:
+        def __init__(s): s.calls = []
+        def normal(s, loc=0.0, scale=1.0, size=None): s.calls.append((float(loc), float(scale), size)); return np.zeros(size)
+    for (Hh, Ww) in ((1, 1), (1, 2), (2, 1), (2, 2), (1, 3), (3, 5), (16, 16)):
+        for snr_db in (0.0, 7.0, 20.0):
+            Qs = np.random.default_rng(7 * Hh + Ww).normal(size=(Hh, Ww, 4)) + 0.25
+            rr = _RecRng()
+            try: qslst.add_awgn_snr(Qs, snr_db, rng=rr)
+            except Exception: rr.calls = None              # another way of drawing the noise: only the statistical test below applies
+            if rr.calls:
+                loc, sig, size = rr.calls[-1]; nsamp = int(np.prod(size)) if size is not None else 1
+                want = float(np.sum(Qs ** 2)) / 10 ** (snr_db / 10)
+                if loc != 0.0 or len(rr.calls) != 1 or abs(sig * sig * nsamp - want) > 1e-12 * want:
+                    viol('C18:awgn:exact', f'expected noise power sigma^2 * N = {sig * sig * nsamp:.6g} differs from ||Q||^2 / 10^(snr/10) = {want:.6g} for a {Hh}x{Ww} image at {snr_db} dB', {'shape': [Hh, Ww], 'snr_db': snr_db}, sig * sig * nsamp, want)
+            ctx.count(('awgn-exact', Hh, Ww, snr_db), True)
     # noise injection: requested SNR in expectation (deterministic generator seeds)
     for snr_db in (0.0, 10.0, 25.0):
         vals = []
